@@ -153,6 +153,7 @@ Proof.
   - cbn [now]; lia.
   - cbn [now]; lia.
   - destruct (mem id (pending st)); cbn [now]; lia.
+  - cbn [now]; lia.
 Qed.
 
 Lemma now_run_mono : forall evs st, (now st <= now (run evs st))%nat.
@@ -195,6 +196,7 @@ Proof.
   - reflexivity.
   - reflexivity.
   - destruct (mem id (pending st)); reflexivity.
+  - reflexivity.
 Qed.
 
 Lemma epoch_step_mono : forall st ev a k,
@@ -329,6 +331,11 @@ Proof.
       * apply remove_key_In in Hx. destruct Hx as [Hx _]. eapply (inv_disj st I); eauto.
     + intros x Hx. apply remove_key_In in Hx. apply (inv_pend_started st I). tauto.
     + intros x [<- | Hx]; [apply (inv_pend_started st I); assumption | apply (inv_commits_started st I); assumption].
+  - (* BrokerCancel *)
+    constructor; cbn [now net queue pending commits started]; try apply I; auto.
+    + apply NoDup_filter. apply I.
+    + intros x Hx. apply filter_In in Hx. apply (inv_disj st I). tauto.
+    + intros x Hx. apply filter_In in Hx. apply (inv_pend_started st I). tauto.
 Qed.
 
 Lemma Inv_run : forall evs st, Inv st -> Inv (run evs st).
